@@ -23,14 +23,14 @@ def _write(p, L):
         f.write("\n".join(json.dumps(e) for e in L) + "\n")
 
 
-def _expect_reject(tag, spec, L, idx, mutate, consts=None, view=None, why=None):
+def _expect_reject(tag, module, L, idx, mutate, consts=None, view=None, why=None, at_idx=None, **kw):
     M = copy.deepcopy(L)
     mutate(M[idx])
     p = os.path.join(core.WORK, "selftest", tag + ".ndjson")
     _write(p, M)
-    r = core.validate_trace("selftest_" + tag, spec, p, consts=consts, view=view)
+    r = core.validate_trace("selftest_" + tag, module, p, consts=consts, view=view, **kw)
     at = (r["reject"] or {}).get("at")
-    ok = (not r["accepted"]) and at == idx + 1 and (why is None or why in str((r["reject"] or {}).get("why")))
+    ok = (not r["accepted"]) and at == (idx if at_idx is None else at_idx) + 1 and (why is None or why in str((r["reject"] or {}).get("why")))
     log("[selftest] %-34s corrupted event %d -> %s at %s (%s)" % (tag, idx + 1, "rejected" if not r["accepted"] else "ACCEPTED", at, (r["reject"] or {}).get("why")))
     return ok
 
@@ -140,6 +140,37 @@ def run():
     def swap34(e):
         e["l1"][3], e["l1"][4] = e["l1"][4], e["l1"][3]
     results["py_array_cells_swapped"] = _expect_reject("py_array_cells_swapped", "PyTrace", P, i_py, swap34, consts={"MaxPrice": MAXPRICE}, why="l1_array")
+    # the same trace with the specification's environment run alongside (PyEnvTrace.tla): the array corruption is still
+    # rejected; and a corruption that only the engine can see - the id a queued cancellation was submitted for is changed in
+    # the log, so that the specification cancels another order at the next step - is rejected at that step by PyEnvTrace and
+    # accepted by PyTrace alone (which judges a step only by its schedule-independent clauses)
+    EK = dict(spec="ESpec", post="EAccepted")
+    results["pyenv_engine_array_cells_swapped"] = _expect_reject("pyenv_engine_array_cells_swapped", "PyEnvTrace", P, i_py, swap34, consts={"MaxPrice": MAXPRICE},
+                                                                 view="EView", why="l1_array", **EK)
+    pt2 = os.path.join(d, "py_env.ndjson")
+    subprocess.run(core.pycmd("pyrecord.py", "--mode", "env", "--out", pt2, "--seed", "21", "--runs", "1", "--ops", "120"), check=True, capture_output=True, env=core.pyenv())
+    P2 = _lines(pt2)
+    cand = None
+    for k, e in enumerate(P2):
+        if e["op"] == "submit" and e.get("k") == "cancel" and e["orders"][e["ids"][0]][1] == 1:
+            nxt = next(j for j in range(k + 1, len(P2)) if P2[j]["op"] == "step")
+            other = [i for i, o in enumerate(e["orders"]) if o[1] == 1 and i != e["ids"][0] and P2[nxt]["orders"][i][1] == 1]
+            if P2[nxt]["orders"][e["ids"][0]][1] == 3 and other:
+                cand = (k, nxt, other[0])
+                break
+    if cand is None:
+        raise ToolError("selftest: no effective cancellation in the recorded Python environment trace")
+
+    def relabel(e):
+        e["ids"][0] = cand[2]
+    results["pyenv_engine_cancel_label"] = _expect_reject("pyenv_engine_cancel_label", "PyEnvTrace", P2, cand[0], relabel, consts={"MaxPrice": MAXPRICE},
+                                                          view="EView", at_idx=cand[1], why="ENGINE", **EK)
+    M2 = copy.deepcopy(P2)
+    relabel(M2[cand[0]])
+    p2 = os.path.join(core.WORK, "selftest", "pyenv_label_plain.ndjson")
+    _write(p2, M2)
+    results["pytrace_alone_cannot_see_it"] = core.validate_trace("selftest_pyenv_label_plain", "PyTrace", p2, consts={"MaxPrice": MAXPRICE})["accepted"]
+    log("[selftest] the same relabelled trace under PyTrace alone: %s" % ("accepted (the engine adds the power)" if results["pytrace_alone_cannot_see_it"] else "rejected"))
     # ---- 2. mutated specifications -----------------------------------------------------------
     for m in SPEC_MUTATIONS:
         results["spec_mutation_" + m[0]] = _mutated_gen(*m)
